@@ -192,6 +192,12 @@ func worldCodec(w *World) {
 				if ok, el, how := closedWithin(conn, 15*time.Second); !ok {
 					viol("framing", "truncated-frame-kept-open", "frame cut at offset %d then EOF: connection %s after %v", cut, how, el)
 				}
+			} else if cut > 0 && r.Intn(2) == 0 {
+				// the peer stalls in the middle of its first message: disconnected in bounded time, not held for ever
+				w.Check("C17.stalled-first-message")
+				if ok, el, how := closedWithin(conn, 60*time.Second); !ok {
+					viol("framing", "stalled-first-message-kept-open", "first message cut at offset %d of %d, then silence: connection %s after %v", cut, len(f), how, el)
+				}
 			}
 			conn.Close()
 		case 2: // unknown type byte
